@@ -82,6 +82,29 @@ theorem ts_adj_both_refuted_old : ¬ TsPresents false := by
 theorem ts_adj_eq : TsPresents true :=
   fun ops dels v d => ts_spec true ops dels v d (Or.inr rfl)
 
+/-- "`both` contains the node itself ONLY IF it has a self loop", spelled out for the containers themselves: `v` is its
+own `both`-neighbour in the adjacency map, the CSR digraph and the triple store iff the history added an edge `v → v`
+(for the store: one whose id is not tombstoned). -/
+theorem both_contains_self_iff_loop (ops : List Op) (dels : List Nat) (v : Nat) :
+    (v ∈ (AdjMap.build ops).adjacent v .both ↔ ∃ id, Op.edge id v v ∈ ops) ∧
+    (v ∈ (Csr.ofOps ops).adjacent v .both ↔ ∃ id, Op.edge id v v ∈ ops) ∧
+    (v ∈ (tsOf ops dels).adjacent true v .both ↔ ∃ id, Op.edge id v v ∈ ops ∧ id ∉ dels) := by
+  have hg : v ∈ (G.ofOps ops).adj v .both ↔ ∃ id, Op.edge id v v ∈ ops := by
+    rw [mem_adj_both, G.hasEdge_ofOps]; simp
+  refine ⟨(adjmap_adj_eq ops v .both v).trans hg, (csr_adj_eq ops v .both v).trans hg, ?_⟩
+  rw [ts_adj_eq ops dels v .both v, mem_adj_both]
+  have : HasEdge ((G.ofOps ops).dropEdges dels).edges v v ↔ ∃ id, Op.edge id v v ∈ ops ∧ id ∉ dels := by
+    show HasEdge ((G.ofOps ops).edges.filter _) v v ↔ _
+    rw [hasEdge_filter]
+    constructor
+    · rintro ⟨e, he, hq, h1, h2⟩
+      refine ⟨e.id, ?_, by simpa using hq⟩
+      have := (G.mem_edges_ofOps ops e).mp he
+      rw [h1, h2] at this; exact this
+    · rintro ⟨id, hop, hd⟩
+      exact ⟨⟨id, v, v⟩, (G.mem_edges_ofOps ops ⟨id, v, v⟩).mpr hop, by simpa using hd, rfl, rfl⟩
+  rw [this]; simp
+
 /-- FULL statement for projections: for all deleted-node and deleted-edge sets, the projection presents the
 edge list minus those edges and minus every edge touching a deleted node. -/
 def ProjPresents (fixed : Bool) : Prop :=
@@ -456,6 +479,42 @@ theorem tsdfs_leaves_eq (ops : List Op) (dels dn de : List Nat) (d : Dir) (filt 
           out.Perm (maxWalks c.2 d filt maxDepth Edge.other F [⟨root, 0⟩]) ∧
           inc = (out.filter (segExceeded maxDepth)).length :=
   fun c hc hterm => traverse_of_incident false c.1 c.2 (tsContainers_incident ops dels dn de c hc) d filt maxDepth root hterm
+
+/-- SERIALISED PATH SEGMENTS DERIVED FROM A CONTAINER round-trip: every segment TSBFS / TSDFS hands its handler — over
+the store or any projection, any direction, filter and depth bound, whatever fuel the run completed with — is a
+non-empty chain ending in the root with `Edge = 0`, so the hypotheses of `segment_roundtrip` hold for it and
+`UnmarshalSegment (MarshalSegment seg) = seg` (what `WriteZoneBFSTree` writes can be read back segment by segment).
+Only the 64-bit range of the graph's ids is assumed. -/
+theorem traversal_segments_roundtrip (bfs : Bool) (ops : List Op) (dels dn de : List Nat) (d : Dir) (filt : Edge → Bool)
+    (maxDepth : Int) (root : Nat) (hroot : root < 2 ^ 64)
+    (h64 : ∀ e ∈ (G.ofOps ops).edges, e.id < 2 ^ 64 ∧ e.start < 2 ^ 64 ∧ e.stop < 2 ^ 64) :
+    ∀ c ∈ tsContainers ops dels dn de, ∀ fuel out inc,
+      tsTraverse bfs true (fun n => c.1 n d) d filt maxDepth fuel root = some (out, inc) →
+      ∀ seg ∈ out, seg ≠ [] ∧ unmarshal (marshal seg) = some seg := by
+  intro c hc fuel out inc hrun seg hseg
+  have hinc := tsContainers_incident ops dels dn de c hc
+  have hsub : ∀ n, ∀ e ∈ c.1 n d, e ∈ (G.ofOps ops).edges := by
+    intro n e he
+    rw [hinc n d] at he
+    have he' := (mem_incident.mp he).1
+    simp only [tsContainers, List.mem_cons, List.not_mem_nil, or_false] at hc
+    rcases hc with rfl | rfl
+    · exact he'
+    · exact (mem_project_edges.mp he').1
+  unfold tsTraverse at hrun
+  rw [pickAt_true] at hrun
+  obtain ⟨F, _, hperm, _⟩ := travLoop_correct bfs _ segIsPath (segExceeded maxDepth) fuel _ _ _ out inc hrun
+  have hmem : seg ∈ treeLeaves (segChildren (fun n => c.1 n d) filt maxDepth Edge.other) segIsPath F [⟨root, 0⟩] := by
+    have := hperm.mem_iff.mp hseg
+    simpa using this
+  have hwf : SegWf root seg :=
+    treeLeaves_inv _ segIsPath (SegWf root)
+      (segWf_children (fun n => c.1 n d) filt maxDepth root (fun n e he => h64 e (hsub n e he))) F [⟨root, 0⟩] seg
+      ⟨⟨[], rfl⟩, by intro x hx; simp at hx; subst hx; exact ⟨hroot, show (0 : Nat) < 2 ^ 64 by decide⟩⟩ hmem
+  obtain ⟨⟨pre, hpre⟩, hall⟩ := hwf
+  have hne : seg ≠ [] := by rw [hpre]; simp
+  refine ⟨hne, (segment_roundtrip seg hne hall ?_).1⟩
+  simp [hpre]
 
 /-- `TSStatelessBFS`: under `Terminates` (for the weighted filter) it completes, and the terminal handler receives
 exactly (as a multiset) the terminals `(end node, distance, weight product)` of the maximal admitted walks
